@@ -80,6 +80,15 @@ def make_grid(rockit, g):
     if k == 'data':
         nz = [float(v) for v in g['nz']]
         return FunctionGrid(lambda N, nz=nz: list(nz), **kw)
+    if k == 'density_poly':
+        from rockit.sampling_method import DensityGrid
+        import casadi as ca
+        t = ca.MX.sym('tau')
+        a, b_, c = [float(v) for v in g['coef']]
+        return DensityGrid(a + b_ * t + c * t * t, **kw)
+    if k == 'dense_edges':
+        from rockit.sampling_method import DenseEdgesGrid
+        return DenseEdgesGrid(multiplier=float(g['multiplier']), edge_frac=float(g['edge_frac']), **kw)
     raise ValueError(k)
 
 
@@ -108,7 +117,7 @@ def flat_syms(syms):
     return out
 
 
-def build(desc, transcribe=True, solver=True):
+def build(desc, transcribe=True, solver=True, extra_phys=False):
     rockit = import_rockit()
     from rockit import Ocp, FreeTime
     b = Built()
@@ -306,15 +315,18 @@ def build(desc, transcribe=True, solver=True):
 
         b.method = make_method(rockit, desc['method'])
         ocp.method(b.method)
+        if desc['method']['grid']['kind'] in ('density_poly', 'dense_edges'):
+            # the normalised vector is data for the model: read it from the grid object rockit will use
+            desc['method']['grid']['nz_runtime'] = [float(v) for v in ocp._method.time_grid.normalized(desc['method']['N'])]
         if solver:
             ocp.solver('ipopt', {'ipopt.print_level': 0, 'print_time': False, 'ipopt.max_iter': 0, 'ipopt.sb': 'yes'})
         if transcribe:
             ocp._transcribed  # triggers transcription
-            finish(b)
+            finish(b, extra_phys)
     return b
 
 
-def finish(b):
+def finish(b, extra_phys=False):
     """after transcription: NLP function and physical read-back functions"""
     ocp = b.ocp
     desc = b.desc
@@ -347,6 +359,12 @@ def finish(b):
         outs['Pc'] = ocp.sample(ca.vertcat(*[ca.vec(s) for s in b.params['control']]), grid='control-')[1]
     if b.params['control+']:
         outs['Pcp'] = ocp.sample(ca.vertcat(*[ca.vec(s) for s in b.params['control+']]), grid='control')[1]
+    if extra_phys:
+        outs['DTnode'] = ocp.sample(ocp.DT, grid='control')[1]
+        outs['DTcnode'] = ocp.sample(ocp.DT_control, grid='control')[1]
+        outs['DTstep'] = ocp.sample(ocp.DT, grid='integrator')[1]
+        outs['DTcstep'] = ocp.sample(ocp.DT_control, grid='integrator')[1]
+        outs['tsamp'] = ocp.sample(ocp.t, grid='integrator')[1]
     outs['T'] = ocp.value(ocp.T)
     outs['t0'] = ocp.value(ocp.t0)
     meth = ocp._method
